@@ -144,7 +144,10 @@ pub fn compounds(red: &[Expr]) -> Vec<Expr> {
                 out.push(Expr::Or(Box::new(Expr::And(a.clone(), b.clone())), c.clone()));
                 out.push(Expr::And(a.clone(), Box::new(Expr::Or(b.clone(), c.clone()))));
                 out.push(Expr::Or(a.clone(), Box::new(Expr::And(b.clone(), c.clone()))));
-                out.push(Expr::And(Box::new(Expr::Or(a, b)), c));
+                out.push(Expr::And(Box::new(Expr::Or(a.clone(), b.clone())), c.clone()));
+                // same operator nested on the right: the grouping must survive printing
+                out.push(Expr::And(a.clone(), Box::new(Expr::And(b.clone(), c.clone()))));
+                out.push(Expr::Or(a, Box::new(Expr::Or(b, c))));
             }
         }
     }
